@@ -8,7 +8,7 @@
 //   EV ::= (e POS value|runtime|other)      command number POS threw (the session goes on: every throw site of the
 //                                           builders is reached before or without leaving dangling state, see
 //                                           Builder.v; ArrayBuilder itself only replaces its root after a normal return)
-//        | (s POS LEN DUMP)                 snapshot taken at command POS, length() and layout dumped AT THAT MOMENT
+//        | (s POS LEN DUMP)                 snapshot taken at command POS: ArrayBuilder::length() and the layout dumped AT THAT MOMENT
 //   final: every snapshot (all kept alive during the session) dumped AGAIN after the last command, so that a
 //   later append that wrote into an earlier snapshot's buffers is visible.
 // Only public headers of /repo/include are used.
@@ -68,7 +68,7 @@ static std::string handle(const Sx& cs) {
       if (c.is("snapshot")) {
         ContentPtr s = b.snapshot();
         snaps.push_back(std::make_pair(pos, s));
-        ev += " (s " + std::to_string(pos) + " " + std::to_string(s->length()) + " " + dump(s) + ")";
+        ev += " (s " + std::to_string(pos) + " " + std::to_string(b.length()) + " " + dump(s) + ")";
       } else {
         apply(b, c);
       }
